@@ -68,6 +68,10 @@ def optimal(model):
     if sol is None:
         return False
     try:
+        if getattr(sol, 'solver', None) == 'Gurobi' and str(sol.status) != '2':
+            # 13 SUBOPTIMAL, 9 TIME_LIMIT, 10 SOLUTION_LIMIT, ...: a point is returned, but the
+            # solver does not claim optimality - nothing to judge
+            return False
         return not np.isnan(sol.objval) and sol.x is not None
     except Exception:
         return False
